@@ -221,7 +221,7 @@ func (ex *Exec) assert(label string, cond *smt.Term) {
 		return
 	}
 	neg := smt.Not(cond)
-	as := ex.constraints(neg)
+	as := append(smt.Slice(ex.constraints(), neg), neg)
 	key := "A" + label + "#" + pcKey(as, nil)
 	res, cached := ex.P.cacheGet(key)
 	var model smt.Model
@@ -233,6 +233,19 @@ func (ex *Exec) assert(label string, cond *smt.Term) {
 		}
 		res, model, note, who = smt.Portfolio(as, true, ex.P.FinalLimit, false)
 		ex.nFinal++
+		if res == smt.Sat && !cond.IsFalse() {
+			// the sliced query has a model: get a complete one from the full path condition
+			full := ex.constraints(neg)
+			if len(full) > len(as) {
+				r2, m2, _, w2 := smt.Portfolio(full, true, ex.P.FinalLimit, false)
+				switch r2 {
+				case smt.Sat:
+					model, who = m2, w2
+				case smt.Unsat:
+					res = smt.Unsat // the path itself is infeasible
+				}
+			}
+		}
 		if !cached {
 			ex.P.cachePut(key, res)
 			ex.P.finalMu.Lock()
